@@ -11,6 +11,7 @@ import (
 	"path"
 	"path/filepath"
 	"reflect"
+	"strings"
 
 	"github.com/akalin/gopar/rsec16"
 )
@@ -27,26 +28,26 @@ func (io defaultFileIO) ReadFile(path string) ([]byte, error) {
 	return ioutil.ReadFile(path)
 }
 
-// escapeGlobMeta escapes the characters that filepath.Glob would
-// otherwise interpret, so that s matches only itself.
-func escapeGlobMeta(s string) string {
-	if filepath.Separator == '\\' {
-		// Escaping is not supported on Windows.
-		return s
-	}
-	var escaped []byte
-	for i := 0; i < len(s); i++ {
-		switch s[i] {
-		case '*', '?', '[', '\\':
-			escaped = append(escaped, '\\')
-		}
-		escaped = append(escaped, s[i])
-	}
-	return string(escaped)
-}
-
 func (io defaultFileIO) FindWithPrefixAndSuffix(prefix, suffix string) ([]string, error) {
-	return filepath.Glob(escapeGlobMeta(prefix) + "*" + escapeGlobMeta(suffix))
+	// Don't use filepath.Glob, since it ignores I/O errors and
+	// interprets metacharacters in prefix and suffix.
+	dir, filePrefix := filepath.Split(prefix)
+	dirToRead := dir
+	if dirToRead == "" {
+		dirToRead = "."
+	}
+	infos, err := ioutil.ReadDir(dirToRead)
+	if err != nil {
+		return nil, err
+	}
+	var matches []string
+	for _, info := range infos {
+		name := info.Name()
+		if len(name) >= len(filePrefix)+len(suffix) && strings.HasPrefix(name, filePrefix) && strings.HasSuffix(name, suffix) {
+			matches = append(matches, dir+name)
+		}
+	}
+	return matches, nil
 }
 
 func (io defaultFileIO) WriteFile(path string, data []byte) error {
